@@ -93,7 +93,7 @@ PROPS = {
         "harnesses": [{"name": "lockhash", "quick": 320000, "thorough": 1600000, "fuzz_runs": 200000},
                       {"name": "lockhash_boost", "quick": 320000, "thorough": 1600000, "fuzz_runs": 200000},
                       {"name": "lockhash_wide", "quick": 160000, "thorough": 1600000, "fuzz_runs": 100000}],
-        "assumptions": [SC, MAP_ASSUME, "lockhash_wide: the Cuckoo containers again with 8 keys (hash tuples with a low-bit bijection only) and with every key-predicate and hash-functor call as an extra scheduling point, i.e. pre-emption inside the critical sections where probe sets are plain memory: a probe set modified without its cell lock shows up as a lost or duplicated element.", "std::mutex / std::recursive_mutex traffic is scheduled through the pthread interposers. Tiny tables: Cuckoo initial size 1-4 with probe-set size 2-4 and colliding injective hash tuples; Striped resizing policies single_bucket_size_threshold<0..2> and rational load factors (StripedSet clamps the initial capacity to 16, so resizes are forced by the policy and a shifted hash). A probe walks the bucket tables at quiescent points (no key twice, element in the bucket its hash selects, probe-set bounds, size() = linked elements)."],
+        "assumptions": [SC, MAP_ASSUME, "lockhash_wide: the Cuckoo containers again with 8 keys (hash tuples with a low-bit bijection only) and with every key-predicate and hash-functor call as an extra scheduling point, i.e. pre-emption inside the critical sections where probe sets are plain memory: a probe set modified without its cell lock shows up as a lost or duplicated element. Lock-discipline oracle in that harness: the mutex policies are wrapped so that each thread knows the hash arrays whose cell locks it holds; a key predicate called while only cell locks are held must compare keys one of whose two probe sets is covered by a held lock cell (necessary condition of the locking protocol; class counter lock_discipline_checks).", "std::mutex / std::recursive_mutex traffic is scheduled through the pthread interposers. Tiny tables: Cuckoo initial size 1-4 with probe-set size 2-4 and colliding injective hash tuples; Striped resizing policies single_bucket_size_threshold<0..2> and rational load factors (StripedSet clamps the initial capacity to 16, so resizes are forced by the policy and a shifted hash). A probe walks the bucket tables at quiescent points (no key twice, element in the bucket its hash selects, probe-set bounds, size() = linked elements)."],
     },
     "C17": {
         "harnesses": [{"name": "rehash", "variants": list(range(0, 9)) + list(range(13, 27)), "quick": 120000, "thorough": 800000, "fuzz_runs": 0},
@@ -199,7 +199,7 @@ _RCU_TEXT = ("Bounded exploration of generated reader/writer programs (nested re
              "schedules for all four flavours incl. the reclamation thread and simulated signal delivery; held on every case explored.")
 
 MANIFEST_TEXT = {
-    "C16": {"text": "Bounded exploration of generated client programs x schedules over CuckooSet/Map and intrusive CuckooSet (striping and refinable policies, list and vector<2|4> probe sets, stored hashes) and StripedSet/Map and intrusive StripedSet (striping, refinable; 26 bucket adapters from std, boost::container and boost::intrusive) with tiny tables so that resizes interleave with the operations: linearizability with insertion tags, functor contract, bucket-table probe at quiescent points. Held on every case explored.",
+    "C16": {"text": "Bounded exploration of generated client programs x schedules over CuckooSet/Map and intrusive CuckooSet (striping and refinable policies, list and vector<2|4> probe sets, stored hashes) and StripedSet/Map and intrusive StripedSet (striping, refinable; 26 bucket adapters from std, boost::container and boost::intrusive) with tiny tables so that resizes interleave with the operations: linearizability with insertion tags, functor contract, bucket-table probe at quiescent points; for the Cuckoo containers additionally 8 keys with pre-emption inside the critical sections and a lock-discipline oracle over wrapped mutex policies. Held on every case explored.",
             "note": _SCHED_NOTE, "technique": "schedule-controlled property-based testing (rapidcheck + libFuzzer) with a linearizability oracle"},
     "C17": {"text": "Generated single-thread insert/erase/update sequences over 64 keys with generated degenerate hash families and minimal capacities/thresholds/load factors over Cuckoo, Striped (std and boost adapters), SplitList and Feldman containers, compared step by step with std::map plus a bucket-table probe. Held on every sequence explored (one open finding for low-entropy Cuckoo tuples, see known_findings.json).",
             "note": "Trusted base: the std::map reference model, the bucket-table probes, ASan/UBSan, rapidcheck.", "technique": "model-based (stateful) property-based testing with rapidcheck: differential against std::map"},
